@@ -1,4 +1,6 @@
 import OpcuaModel.Model.JsonIO
+import OpcuaModel.Model.Graph
+import OpcuaModel.Model.Order
 /-! Line-protocol driver: one JSON object per input line → one JSON object per output line.
     It only *evaluates* the model's definitions; it contains no logic of its own beyond decoding. -/
 open Lean Opcua Opcua.IO
@@ -30,11 +32,128 @@ def opNodeIdPrint (j : Json) : Except String Json := do
   let n ← nodeIdOfJson (← j.getObjVal? "id")
   return Json.mkObj [("text", Json.str (ofStr n.print))]
 
+/-! ### graph ops (C12, C13) -/
+def natList (j : Json) : Except String (List Nat) := do
+  let a ← j.getArr?
+  a.toList.mapM fun x => x.getNat?
+
+def edgesOf (j : Json) (k : String) : Except String (List Edge) := do
+  let a ← getArr j k
+  a.toList.mapM fun p => do
+    let q ← natList p
+    match q with
+    | [x, y] => return (x, y)
+    | _ => throw "edge: expected 2 items"
+
+def refsOf (j : Json) (k : String) : Except String (List Ref) := do
+  let a ← getArr j k
+  a.toList.mapM fun p => do
+    let q ← natList p
+    match q with
+    | [x, y, z] => return ⟨x, y, z⟩
+    | _ => throw "ref: expected 3 items"
+
+def natsToJson (l : List Nat) : Json := Json.arr (l.map fun n => Json.num (JsonNumber.fromNat n)).toArray
+def edgesToJson (l : List Edge) : Json := Json.arr (l.map fun e => natsToJson [e.1, e.2]).toArray
+def refsToJson (l : List Ref) : Json := Json.arr (l.map fun r => natsToJson [r.src, r.trg, r.ty]).toArray
+
+def opClosure (j : Json) : Except String Json := do
+  return Json.mkObj [("pairs", edgesToJson (closure (← edgesOf j "edges")))]
+
+def opCircular (j : Json) : Except String Json := do
+  return Json.mkObj [("nodes", natsToJson (circular (← edgesOf j "edges")))]
+
+def opTyping (j : Json) : Except String Json := do
+  let hst ← getNat j "hst"
+  let typeRefs ← refsOf j "type_refs"
+  let what ← (← j.getObjVal? "what").getStr?
+  match what with
+  | "subtypes" => return Json.mkObj [("pairs", edgesToJson (subtypesOf hst typeRefs (← natList (← j.getObjVal? "types"))))]
+  | "supertypes" => return Json.mkObj [("pairs", edgesToJson (supertypesOf hst typeRefs (← natList (← j.getObjVal? "types"))))]
+  | "constrain" => return Json.mkObj [("refs", refsToJson (constrain hst typeRefs (← refsOf j "inst") (← natList (← j.getObjVal? "types"))))]
+  | "with_mr" => return Json.mkObj [("refs", refsToJson (selWithMR hst typeRefs (← refsOf j "inst") (← getNat j "sel") (← getNat j "hmr")))]
+  | "no_mr" => return Json.mkObj [("refs", refsToJson (selNoMR hst typeRefs (← refsOf j "inst") (← getNat j "sel") (← getNat j "hmr")))]
+  | _ => throw "typing: unknown what"
+
+def opRelatives (j : Json) : Except String Json := do
+  let edges ← edgesOf j "edges"
+  let starts ← natList (← j.getObjVal? "starts")
+  let anc ← getBool j "ancestors"
+  let E := if anc then flipEdges edges else edges
+  let rows ← (do
+    if has j "cutoff" then return findRelatives E starts (← getNat j "cutoff")
+    else return findRelativesNoCutoff E starts)
+  return Json.mkObj [("rows", Json.arr (rows.map natsToJson).toArray)]
+
+def opNodePaths (j : Json) : Except String Json := do
+  let edges ← edgesOf j "edges"
+  let root ← getNat j "root"
+  let names ← getArr j "names"
+  let tbl ← names.toList.mapM fun p => do
+    let q ← p.getArr?
+    if q.size != 2 then throw "names pair"
+    return ((← q[0]!.getNat?), strOf (← q[1]!.getStr?))
+  let name := fun (i : Nat) => (lookup i tbl).getD []
+  let rows := nodePaths edges root name
+  return Json.mkObj [("rows", Json.arr (rows.map fun r => Json.arr #[Json.num (JsonNumber.fromNat r.1), Json.str (ofStr r.2)]).toArray)]
+
+/-! ### order ops (C14) -/
+def keyOf (j : Json) : Except String Key := do
+  let a ← j.getArr?
+  if a.size != 2 then throw "key: expected 2 items"
+  return ⟨strOf (← a[0]!.getStr?), strOf (← a[1]!.getStr?)⟩
+
+def cellOf (j : Json) : Except String Cell :=
+  match j with
+  | .null => return none
+  | _ => do return some (← keyOf j)
+
+def cellToJson : Cell → Json
+  | none => Json.null
+  | some k => Json.arr #[Json.str (ofStr k.cls), Json.str (ofStr k.rep)]
+
+def opOrderCmp (j : Json) : Except String Json := do
+  let a ← keyOf (← j.getObjVal? "a")
+  let b ← keyOf (← j.getObjVal? "b")
+  return Json.mkObj [("lt", Json.bool (Key.lt a b)), ("le", Json.bool (Key.le a b)),
+    ("gt", Json.bool (Key.gt a b)), ("ge", Json.bool (Key.ge a b))]
+
+def opOrderSort (j : Json) : Except String Json := do
+  let rows ← getArr j "rows"
+  let rs ← rows.toList.mapM fun r => do
+    let cs ← r.getArr?
+    cs.toList.mapM cellOf
+  return Json.mkObj [("rows", Json.arr ((sortRows rs).map fun r => Json.arr (r.map cellToJson).toArray).toArray)]
+
+def fldOf (j : Json) : Except String Fld :=
+  match j with
+  | .null => return .pyNone
+  | .str "<NA>" => return .na
+  | .str s => return .atom (strOf s)
+  | _ => throw "fld"
+
+def opOrderEq (j : Json) : Except String Json := do
+  let c1 ← getStr j "c1"
+  let c2 ← getStr j "c2"
+  let f1 ← (← getArr j "f1").toList.mapM fldOf
+  let f2 ← (← getArr j "f2").toList.mapM fldOf
+  match valEq c1 f1 c2 f2 with
+  | .ok v => return Json.mkObj [("eq", Json.bool v)]
+  | .error e => return errJson e
+
 def dispatch (j : Json) : Except String Json := do
   let op ← (← j.getObjVal? "op").getStr?
   match op with
   | "nodeid.parse" => opNodeIdParse j
   | "nodeid.print" => opNodeIdPrint j
+  | "closure" => opClosure j
+  | "circular" => opCircular j
+  | "typing" => opTyping j
+  | "relatives" => opRelatives j
+  | "nodepaths" => opNodePaths j
+  | "order.cmp" => opOrderCmp j
+  | "order.sort" => opOrderSort j
+  | "order.eq" => opOrderEq j
   | "ping" => return Json.mkObj [("pong", Json.bool true)]
   | _ => throw s!"unknown op {op}"
 
